@@ -408,12 +408,17 @@ def run_check(engine: Engine, tier: str, seed: int, hashseed: str) -> int:
     wall = float(os.environ.get("VERIF_WALL", b["wall_s"]))
     W = int(os.environ.get("VERIF_WORKERS", engine.default_workers))
     W = max(1, min(W, n_runs))
+    # Engines whose runs do not depend on what the process executed before (they reset process-global state per run) may
+    # split the batch into more static partitions than processes; the pool hands partitions to whichever process is free,
+    # so a few expensive runs no longer decide the wall time.  A partition is still a fixed sequence (v, V): failures
+    # are confirmed and replayed exactly as before.
+    V = max(W, min(int(getattr(engine, "virtual_workers", 0) or 0), n_runs)) if W > 1 else W
     deadline = t0 + wall
     known = load_known()
     known_open = [e for e in known if e.get("status") == "open" and e["property"] == engine.prop]
     sample_every = max(1, n_runs // b.get("selftest_samples", 24))
 
-    print(f"[{engine.prop}] tier={tier} VERIF_SEED={seed} runs={n_runs} workers={W} "
+    print(f"[{engine.prop}] tier={tier} VERIF_SEED={seed} runs={n_runs} workers={W} partitions={V} "
           f"PYTHONHASHSEED={hashseed} repo={repo_path()}", flush=True)
 
     engine.warmup()
@@ -423,8 +428,8 @@ def run_check(engine: Engine, tier: str, seed: int, hashseed: str) -> int:
     inconclusive = None
     try:
         with ProcessPoolExecutor(max_workers=W, mp_context=ctx) as ex:
-            jobs = [(engine.prop, seed, tier, w, W, 0, n_runs, known_open, 5, deadline, sample_every)
-                    for w in range(W)]
+            jobs = [(engine.prop, seed, tier, v, V, 0, n_runs, known_open, 5, deadline, sample_every)
+                    for v in range(V)]
             for a in ex.map(_worker, jobs):
                 aggs.append(a)
     except BrokenProcessPool as e:
@@ -517,6 +522,7 @@ def run_check(engine: Engine, tier: str, seed: int, hashseed: str) -> int:
         "reach": {k: len(v) for k, v in sorted(sets.items())},
         "components": engine.components,
         "workers": W,
+        "partitions": V,
         "pythonhashseed": hashseed,
         "determinism_selftest": det,
         "known_findings_open": [e["what"] for e in known_open],
